@@ -675,6 +675,15 @@ class Frame:
             return self.env[e.id]
         if e.id in self.prog.classes:
             return ClassRef(e.id)
+        # module-level registry of classes: {"MolGraph": MolGraph, ...}
+        try:
+            node = self.prog.module_assign(self.fi.module.name, e.id)
+        except Exception:
+            node = None
+        if isinstance(node, ast.Dict) and node.values and all(
+                isinstance(v, ast.Name) and v.id in self.prog.classes
+                for v in node.values):
+            return ClassMap(tuple(v.id for v in node.values))
         return IMM        # module-level constant / builtin
 
     def ev_JoinedStr(self, e):
